@@ -31,6 +31,12 @@ Record ecase := {
                                               no such account / slot empty) *)
 }.
 
+(** Transport encoding of the case literals (tools/py/props/c08.py): a record string that is exactly "0x" followed
+    by the lower-case hex digits of a byte string [l] is written [hex0x_lit l]. *)
+Definition hexdigit_lit (d : N) : byte := byte_of_N (if d <? 10 then 48 + d else 87 + d).
+Definition hex0x_lit (l : bytes) : bytes :=
+  x30 :: x78 :: flat_map (fun b => [hexdigit_lit (nb b / 16); hexdigit_lit (nb b mod 16)]) l.
+
 Fixpoint list_bytes_eqb (a b : list bytes) : bool :=
   match a, b with
   | [], [] => true
